@@ -350,4 +350,20 @@ theorem step_noalloc (st : PState) (line : Bytes) (dec : Bool) :
     rw [he]
     exact ⟨⟨_, rfl⟩, Or.inl rfl, Or.inl hlong⟩
 
+/-! ### The allocating builds have no ceiling -/
+
+/-- **In the std and alloc builds a fragment that continues the open group is appended whatever the lengths are**:
+    there is no size at which reassembly starts to refuse (or truncate) - 384 bytes, 64 KiB or more.  (The ninth
+    round's alloc-only "64 KiB ceiling" and "bounded reserve" seeds are changes that make this false of the code.) -/
+theorem no_ceiling (cfg : Cfg) (hc : cfg = .std ∨ cfg = .alloc) (st : PState) (s : Sentence)
+    (hid : st.message_id = s.message_id) (hfn : st.fragment_number + 1 = s.fragment_number) :
+    verifyAndExtend cfg st s = ({ st with data := st.data ++ s.data, fragment_number := s.fragment_number }, ok ()) := by
+  apply verify_accept cfg st s hid hfn
+  rcases hc with rfl | rfl <;> simp [fits, capOf, Cfg.isNoalloc]
+
+/-- Non-vacuity: a state holding 70 000 bytes accepts the next fragment in the alloc build. -/
+example : (verifyAndExtend .alloc ⟨some 1, 1, List.replicate 70000 0x30⟩
+    { (default : Sentence) with message_id := some 1, fragment_number := 2, data := [0x31] }).2 = ok () := by
+  rw [no_ceiling .alloc (Or.inr rfl) _ _ rfl rfl]
+
 end AisVerif.C18
